@@ -35,7 +35,7 @@
 //!   RX <hex>                                         the bytes are written to the peer end of a real connection,
 //!                                                    conn.recv.get_next_message(Duration(50ms))
 //!   SB <kind> <bo> <content_bytes>                   push an array whose content has that many bytes; kind u8|u64|bool|pstr|dict|dicts|pdict
-//!   SD <kind> <depth>                                push_old_param of a Param tree nested <depth> containers deep; kind v|mix;
+//!   SD <kind> <depth>                                push_old_param of a Param tree nested <depth> containers deep; kind v|mix|p:<pattern over vsadSAD>;
 //!                                                    kind tv: push_param(&params::Variant) (the typed entry of the Param marshaller) around <depth>-1 Param variants
 //!   SC <entry> <bo> <elem> <nbytes>                  scaling: a VALID array of about <nbytes> bytes of content built here; elem ay|ab|at|as|a{tt}|av;
 //!                                                    entry vr|up|ut|bpget|bpparam|bpall|bpvalidate (as the ops above) | hd (the array as the value of an
@@ -786,14 +786,40 @@ fn eval(line: &str) -> String {
         "SD" => {
             let kind = toks[1];
             let depth = num(2);
-            let mut p = Param::Base(Base::Byte(7));
+            let mut p: Param<'static, 'static> = Param::Base(Base::Byte(7));
+            // kind p:<pattern>: level lvl (0 = outermost) is the container pattern[lvl % len]: v variant, s struct, a array, d dict
+            // a{y..}; S A D the by-reference forms of the same (StructRef, ArrayRef, DictRef; the referenced parts are leaked)
+            let pat: Vec<u8> = kind.strip_prefix("p:").map(|x| x.bytes().collect()).unwrap_or_default();
             // built inside out: level `depth` is the innermost container
             for lvl in (0..depth).rev() {
-                let k = if kind == "v" || kind == "tv" { 0 } else { lvl % 3 };
+                let k = if !pat.is_empty() {
+                    pat[lvl % pat.len()]
+                } else if kind == "v" || kind == "tv" {
+                    b'v'
+                } else {
+                    [b'v', b's', b'a'][lvl % 3]
+                };
                 p = match k {
-                    0 => Param::Container(Container::Variant(Box::new(rustbus::params::Variant { sig: p.sig(), value: p }))),
-                    1 => Param::Container(Container::Struct(vec![p])),
-                    _ => Param::Container(Container::Array(rustbus::params::Array { element_sig: p.sig(), values: vec![p] })),
+                    b'v' => Param::Container(Container::Variant(Box::new(rustbus::params::Variant { sig: p.sig(), value: p }))),
+                    b's' => Param::Container(Container::Struct(vec![p])),
+                    b'a' => Param::Container(Container::Array(rustbus::params::Array { element_sig: p.sig(), values: vec![p] })),
+                    b'S' => Param::Container(Container::StructRef(Box::leak(vec![p].into_boxed_slice()))),
+                    b'A' => {
+                        let element_sig = p.sig();
+                        Param::Container(Container::ArrayRef(rustbus::params::ArrayRef { element_sig, values: Box::leak(vec![p].into_boxed_slice()) }))
+                    }
+                    b'd' | b'D' => {
+                        let value_sig = p.sig();
+                        let mut map: rustbus::params::DictMap<'static, 'static> = std::collections::HashMap::new();
+                        map.insert(Base::Byte(3), p);
+                        let key_sig = signature::Base::Byte;
+                        if k == b'd' {
+                            Param::Container(Container::Dict(rustbus::params::Dict { key_sig, value_sig, map }))
+                        } else {
+                            Param::Container(Container::DictRef(rustbus::params::DictRef { key_sig, value_sig, map: Box::leak(Box::new(map)) }))
+                        }
+                    }
+                    x => panic!("SD level kind {}", x as char),
                 };
             }
             let mut body = MarshalledMessageBody::new();
